@@ -64,10 +64,10 @@ Proof.
     split; [destruct (a_fin a); [discriminate|reflexivity]|].
     destruct (get_max_packet_points (proto_dtypes proto)) as [mpp|k|] eqn:Em; try discriminate.
     pose proof (validate_prototype_ok proto Hv) as R. unfold rules_part in R.
-    destruct R as (R1 & R2 & R3 & R4 & R5 & R6 & R7 & R8 & R9 & R10 & R11 & R12 & R13 & R14 & R15 & R16 & R17 & R18 & _).
+    destruct R as (R1 & R2 & R3 & R4 & R5 & R6 & R7 & R8 & R9 & R10 & R11 & R12 & R13 & R14 & R15 & R16 & R17 & R18 & _ & R19).
     split; [|apply packet_margin_iff; eauto].
     unfold representable_prototype. repeat (split; [assumption|]).
-    split; [apply (ext_validate_prototype_ok proto _ He)|apply (capacity_fits proto mpp Em)].
+    split; [apply (ext_validate_prototype_ok proto _ He)|split; [apply (capacity_fits proto mpp Em)|exact R19]].
   - destruct (a_sub a) as [|p|]; try exact I. apply andb_prop in H as [H1 H2].
     split; [destruct (ap_fin p); [discriminate|reflexivity]|apply values_ok_representable; exact H2].
   - destruct (a_sub a) as [|p|]; try exact I. apply andb_prop in H as [H1 H2].
@@ -127,7 +127,7 @@ Lemma cx_canonical : forall g proto, In (AddPointcloud g proto) cx_tops -> proto
 Proof.
   intros g proto H. unfold cx_tops in H. cbn [In] in H.
   repeat (destruct H as [H|H]; [try discriminate H; inversion H; subst; intros r Hr; cbn [In] in Hr;
-                                 repeat (destruct Hr as [<-|Hr]; [exact I|]); destruct Hr|]).
+                                 repeat (destruct Hr as [<-|Hr]; [cbn; try exact I; split; intros x Hx; discriminate Hx|]); destruct Hr|]).
   destruct H.
 Qed.
 
